@@ -7,7 +7,7 @@ import math
 import numpy as np
 from numpy.typing import NDArray
 from scipy.integrate import quad
-from scipy.optimize import minimize
+from scipy.optimize import brentq
 
 
 # Gas property calculations
@@ -114,8 +114,7 @@ def z_factor_DAK(
     C[3] = A[9] / (temp_reduced**3)
     C[4] = A[9] * A[10] / (temp_reduced**3)
 
-    def calculate_error_fraction(rho: NDArray[np.float64]):
-        rho = rho[0]
+    def eos_residual(rho: float) -> float:
         B = math.exp(-A[10] * rho**2)
         F_rho = (
             0.27 * pressure_reduced / (temp_reduced * rho)
@@ -126,22 +125,11 @@ def z_factor_DAK(
             - C[3] * rho**2 * B
             - C[4] * rho**4 * B
         )
-        DF_rho = (
-            -0.27 * pressure_reduced / (temp_reduced * rho**2)
-            - C[0]
-            - 2 * C[1] * rho
-            - 5 * C[2] * rho**4
-            - 2 * C[3] * rho * B
-            + 2 * A[10] * rho * B * C[3] * rho**2
-            - 4 * C[4] * rho**3 * B
-            + 2 * A[10] * rho * B * C[4] * rho**4
-        )
-        return math.fabs(F_rho / DF_rho)
+        return F_rho
 
     rho_guess = 0.27 * pressure_reduced / temp_reduced
-    bounds = ((rho_guess / 5, rho_guess * 20),)  # bounds go from a z-factor of 0.05 to 5
-    result = minimize(calculate_error_fraction, rho_guess, bounds=bounds)
-    rho = result.x[0]
+    # bracket goes from a z-factor of 5 to 0.05; brentq raises if it holds no root
+    rho = brentq(eos_residual, rho_guess / 5, rho_guess * 20, xtol=1e-14, rtol=1e-12)
     Z_factor = 0.27 * pressure_reduced / (rho * temp_reduced)
     return Z_factor
 
